@@ -423,7 +423,6 @@ package engine
 //@   requires d != nil && f != nil
 //@   assigns group(ast)
 
-
 //@ func (c Changelog) Changed(start, end)
 //@   trusted records an interval in a go-intervals set (dependency state, not modelled)
 //@   assigns nothing
@@ -460,7 +459,6 @@ package engine
 //@   ensures [C05] every-other-field-is-copied-back: err == nil ==> fieldsSet == old(fieldsSet) + len(sd.OtherFields) + 1
 //@   loop 0
 //@     invariant [C05] fieldsSet == old(fieldsSet) + #k
-
 
 // ---- imports after a change (C11) -----------------------------------------------------------------------
 
